@@ -10,6 +10,7 @@ IMPORTS = ["SocVerif.Props.C19"]
 def run(rep, tier):
     lib.proof_gate(rep, PROP, THEOREMS, IMPORTS)
     n = 360 if tier == "quick" else 15000
+    n = rep.scale(n)
     res = lib.pmap(elab.run_idx, [(rep.seed, i) for i in range(n)])
     errs = [r for r in res if "harness_error" in r]
     if errs:
@@ -30,7 +31,7 @@ def run(rep, tier):
                           True, f"C19: {f[1]}")
     # ---- shadow correspondence: model of _Shadow.prepare vs the real shadow sizes / refusal
     agg = runner.correspondence(rep, prop=PROP, mod_name="harness.shadowc", driver_kind="mux",
-                                ncases=200 if tier == "quick" else 20000, oracle_props={"C19"},
+                                ncases=rep.scale(200) if tier == "quick" else 20000, oracle_props={"C19"},
                                 sample_fmt=lambda r: {"layout": r["lines"][:8], "real": r["obs"]})
     rep.coverage.update(agg)
     rep.coverage["evaluations"] = n + agg["evaluations"]
